@@ -646,7 +646,8 @@ func (env *SpecEnv) call(x SCall) Val {
 			env.fail("dom of non-map")
 		}
 		dk, ds, _, _, ks, _ := a.mapHeaps(env.st, mt)
-		return Val{S: sel(env.vc.getHeap(env.st, dk, ds), m.S), Sort: "(Array " + ks + " Bool)"}
+		srt := "(Array " + ks + " Bool)"
+		return Val{S: ite(eq(m.S, "0"), "((as const "+srt+") false)", sel(env.vc.getHeap(env.st, dk, ds), m.S)), Sort: srt}
 	case "mapvals":
 		m := arg(0)
 		mt, ok := m.T.Underlying().(*types.Map)
